@@ -634,6 +634,10 @@ class SimNet:
 
     def deliver_to(self, src: SimSocket, dst: SimSocket, data: bytes):
         if src.side == "mgr":
+            # writing takes time (a configured cost per write: the clock moves while the manager is busy sending)
+            wc = getattr(self.world, "write_cost", 0.0)
+            if wc:
+                self.clock.advance(wc)
             # manager -> peer: arrives at once; parse what the manager wrote
             dst.rx_arrived += data
             dst.rx_log += data
